@@ -1,7 +1,7 @@
 use crate::data;
 use crate::data::Record;
 use crate::operator::{EvalError, Expr, UnaryPreAggFunction};
-use chrono::DurationRound;
+use std::convert::TryFrom;
 
 #[derive(Clone)]
 pub struct Timeslice {
@@ -30,11 +30,25 @@ impl UnaryPreAggFunction for Timeslice {
 
         match inp.as_ref() {
             data::Value::DateTime(dt) => {
-                let rounded =
-                    dt.duration_trunc(self.duration)
-                        .map_err(|e| EvalError::InvalidDuration {
-                            error: format!("{:?}", e),
-                        })?;
+                // the latest multiple of the slice since the epoch that is not after the date, on the
+                // nanosecond count: chrono's duration_trunc works in i64 nanoseconds and refuses dates
+                // outside 1677..2262 that the rest of the tool handles
+                let span = data::duration_nanos(self.duration);
+                let nanos = i128::from(dt.timestamp()) * 1_000_000_000
+                    + i128::from(dt.timestamp_subsec_nanos());
+                let rounded = Some(span)
+                    .filter(|span| *span > 0)
+                    .map(|span| nanos - nanos.rem_euclid(span))
+                    .and_then(|floor| {
+                        let secs = i64::try_from(floor.div_euclid(1_000_000_000)).ok()?;
+                        chrono::DateTime::from_timestamp(
+                            secs,
+                            floor.rem_euclid(1_000_000_000) as u32,
+                        )
+                    })
+                    .ok_or_else(|| EvalError::InvalidDuration {
+                        error: format!("{} has no slice of {}", dt, self.duration),
+                    })?;
                 let rec = rec.put(
                     self.output_column
                         .clone()
